@@ -21,6 +21,10 @@ pub fn generate(g: &mut Gen) {
             let t = Tensor::single(kink.clone());
             g.push(format!("act.fwd {} {}", a, qt(&t)), Tol::Exact, &format!("{}/fwd/kink+extremes", a), true);
             g.push(format!("act.bwd {} {}", a, qt(&t)), Tol::Exact, &format!("{}/bwd/kink+extremes", a), true);
+            // the same values through the 3-D copy
+            let t3 = Tensor::triple(vec![kink[..10].chunks(5).map(|c| c.to_vec()).collect(), kink[10..].chunks(5).map(|c| c.to_vec()).collect()]);
+            g.push(format!("act.fwd {} {}", a, qt(&t3)), Tol::Exact, &format!("{}/fwd/kink+extremes/3d", a), true);
+            g.push(format!("act.bwd {} {}", a, qt(&t3)), Tol::Exact, &format!("{}/bwd/kink+extremes/3d", a), true);
         }
         // unsupported ranks
         let d = g.tensor_of(&Shape::Double(2, 2), false);
